@@ -25,7 +25,7 @@ LEVEL = {
             "length expressions are range-guarded (|v| < 2^24); identifier shadowing of a constant by a field is finding F9."),
     "C08": ("MC_Cuts proves on the specification, for every case, input and EVERY cut point, that a shortened input yields EOF, the complete value, or a lax outcome (trailing padding / [EOF] arrays) - never another value; the real library is then run on every cut of accepted inputs and with every single stream fault of the clean run injected through a faulty stream object (short read by 1, 2 or all bytes; raising), both readers, followed by clean parses (no residue); Trace_Codec judges each outcome (clauses status, value, fabricated, fault-status).",
             "fault_enumeration inside model checking: faults are single (one per run); [EOF] arrays are exempt under stream faults."),
-    "C10": ("ExprGrammar.tla is the C grammar of the property (lexer for the four literal bases with u/l suffixes + precedence-climbing parser, left associative) and is the oracle; MC_Expr runs the evaluator of expression.py as a state machine (token rewrite of unary minus, one action per branch of the shunting-yard loop, evaluate_exp, drain; two evaluations on one object with different contexts) on every tree <= 1 operator over all leaf kinds (thorough: <= 2 operators, 1.15M states) and proves MachineIsC, GrammarIsTree, Repeatable, NoError, RewriteIdempotent; with the pre-fix unary marker TLC returns the counter-example of finding F8 (negative control run in every check). Real Expression objects are then evaluated on the same enumeration and on random texts (fresh, repeated with another context, as array lengths of parsed structures) and judged by the grammar (Trace_Expr).",
+    "C10": ("ExprGrammar.tla is the C grammar of the property (lexer for the four literal bases with u/l suffixes + precedence-climbing parser, left associative) and is the oracle on range-guarded integers; ExprBig.tla / BigInt.tla give the same grammar's meaning over unbounded integers (limb arithmetic with long division and two's-complement bitwise operators), bound to real Expression objects on operands up to 2^100 and cross-checked against ExprGrammar on every small expression; MC_Expr runs the evaluator of expression.py as a state machine (token rewrite of unary minus, one action per branch of the shunting-yard loop, evaluate_exp, drain; two evaluations on one object with different contexts) on every tree <= 1 operator over all leaf kinds (thorough: <= 2 operators, 1.15M states) and proves MachineIsC, GrammarIsTree, Repeatable, NoError, RewriteIdempotent; with the pre-fix unary marker TLC returns the counter-example of finding F8 (negative control run in every check). Real Expression objects are then evaluated on the same enumeration and on random texts (fresh, repeated with another context, as array lengths of parsed structures) and judged by the grammar (Trace_Expr).",
             "values guarded to |v| < 2^24, shift counts <= 20; / and % only for non-negative / positive operands, as the property states."),
     "C11": ("UnionOps.tla: a union is one buffer, members are Decode(member, buf), an assignment replaces exactly the data bits of the written member's new encoding; MC_Union proves SizeIsLargest, Visible, OthersKeep, DumpIsBuffer for all unions of 1..2 (3) members of a 12-kind alphabet and all assignment sequences <= 3; Trace_Union is a stateful trace specification (state = the buffer) that judges histories Parse|Default, Assign* recorded on real union objects - all member views and dumps() after every step. The implementation's known deviations (F16 dump through one member, F27 whole-extent overwrite) are named operators; a trace that matches a deviation continues from the deviating buffer so the rest is still checked; MC_Union_dev is the negative control.",
             "array-element assignment (u.arr[0] = x) is not an assignment to a member in the sense of the property and is not driven."),
